@@ -104,44 +104,64 @@ def evaluate(ctx, cases):
     import jsonpath
     from jsonpath import Projection
 
+    # pass 1: the implementation's selections per match -> driver requests
+    work, reqs = [], []
     for c in cases:
         doc = copy.deepcopy(c["doc"])
         before = copy.deepcopy(doc)
         style = getattr(Projection, c["style"])
-        inp = dict(c)
         matches = list(jsonpath.finditer(c["match"], doc))
-        # what is selected, per match (from the implementation's own finditer: C01 ties that to the RFC)
-        expect = []
-        in_scope = True
+        per_match, expect, in_scope = [], [], True
         for m in matches:
-            if not isinstance(m.obj, (dict, list)):
-                continue
             sels = []
-            for q in c["sel"]:
-                for r in jsonpath.finditer(q, m.obj):
-                    sels.append((tuple(r.parts), r.obj))
-            if not sels:
+            if isinstance(m.obj, (dict, list)):
+                for q in c["sel"]:
+                    for r in jsonpath.finditer(q, m.obj):
+                        sels.append((tuple(r.parts), r.obj))
+            per_match.append((m, sels))
+        for m, sels in per_match:
+            try:
+                reqs.append({"op": "proj.select", "style": c["style"], "match_parts": list(m.parts), "match_val": core.enc(m.obj),
+                             "sels": [[list(p), core.enc(v)] for p, v in sels]})
+            except core.Unencodable:
+                reqs.append({"op": "ping"})
+            if not isinstance(m.obj, (dict, list)) or not sels:
                 continue
             if c["style"] == "FLAT":
                 expect.append([v for _, v in sels])
                 continue
             if not relations([p for p, _ in sels]):
                 in_scope = False
-                break
+                continue
             pre = tuple(m.parts) if c["style"] == "ROOT" else ()
             expect.append(spec_tree([(pre + p, v) for p, v in sels]))
         o = core.outcome(lambda: list(jsonpath.query(c["match"], doc).select(*c["sel"], projection=style)))
+        work.append((c, doc, before, per_match, expect, in_scope, o))
+    outs = ctx.driver.run(reqs, jobs=ctx.jobs)
+    k = 0
+    for c, doc, before, per_match, expect, in_scope, o in work:
+        inp = dict(c)
+        model, outside = [], False
+        for _ in per_match:
+            m = outs[k]; k += 1
+            if "ok" in m:
+                model.append(m["ok"])
+            elif "outside" in m:
+                outside = True
         ctx.case(repr(c), bool(expect), sample=c)
         ctx.count("style:" + c["style"])
         ctx.count("scope:" + ("in" if in_scope else "overlapping-or-descending"))
         if doc != before or repr(doc) != repr(before):
             ctx.violation("projection must not modify the document", inp, core.canon(doc), core.canon(before))
-        if not in_scope:
-            continue
         if "err" in o:
-            ctx.violation("projection raised", inp, o["err"], "projections")
+            if in_scope:
+                ctx.violation("projection raised", inp, o["err"], "projections")
             continue
         got = [core.canon(x) for x in o["ok"]]
+        if not outside and got != model:
+            ctx.mismatch("proj.select", inp, got, model)
+        if not in_scope:
+            continue
         want = [core.canon(x) for x in expect]
         if got != want:
             ctx.violation("projection must contain exactly the selected values at their (rank-compacted) locations, one projection per container match with a non-empty selection", inp, got, want)
